@@ -23,8 +23,8 @@ Definition c10_reprint (s : bytes) : option bytes := option_map json_print (json
 Definition c10_unquote (t : bytes) : ures := cue_unquote t.
 Definition c10_unescape (t : bytes) : option bytes := option_map utf8_encode_all (json_unescape t).
 Definition c10_parse_num (t : bytes) : pnres := parse_num t.
-Definition c10_read_number (t : bytes) : option (bool * cdec) := cue_read_number t.
-Definition c10_apd (buf : bytes) : cdec := apd_set_string buf.
+Definition c10_read_number (t : bytes) : option (bool * dec) := cue_read_number t.
+Definition c10_apd (buf : bytes) : option dec := apd_set_string buf.
 Definition c10_format_G (neg : bool) (coeff : N) (e : Z) : bytes :=
   format_G {| dneg := neg; dcoeff := coeff; dexp := e |}.
 Definition c10_go_string (s : bytes) : bytes := go_json_string s.
